@@ -83,8 +83,13 @@ FilterRet(f) == IF f.id = "reserved" THEN "DATA_ERROR"                   \* "if 
                 ELSE IF f.id = "lzma2" THEN (IF f.plen = 1 /\ f.pok THEN "OK" ELSE "OPTIONS_ERROR")
                 ELSE IF f.id = "delta" THEN (IF f.plen = 1 THEN "OK" ELSE "OPTIONS_ERROR")
                 ELSE IF f.plen \in {0, 4} THEN "OK" ELSE "OPTIONS_ERROR" \* lzma_simple_props_decode()
+(* lzma_vli_decode() of the Filter ID / Size of Properties comes first: a malformed VLI is LZMA_DATA_ERROR *)
+FilterRetV(f) == IF f.idv # "ok" THEN "DATA_ERROR"
+                 ELSE IF f.id = "reserved" THEN "DATA_ERROR"
+                 ELSE IF f.psv # "ok" THEN "DATA_ERROR"
+                 ELSE FilterRet(f)
 RECURSIVE FiltersRet(_)
-FiltersRet(fs) == IF fs = <<>> THEN "OK" ELSE IF FilterRet(Head(fs)) # "OK" THEN FilterRet(Head(fs)) ELSE FiltersRet(Tail(fs))
+FiltersRet(fs) == IF fs = <<>> THEN "OK" ELSE IF FilterRetV(Head(fs)) # "OK" THEN FilterRetV(Head(fs)) ELSE FiltersRet(Tail(fs))
 (* lzma_validate_chain(): walk with non_last_ok / last_ok *)
 RECURSIVE ChainWalk(_, _)
 ChainWalk(fs, nonLastOk) == IF ~nonLastOk THEN FALSE
@@ -173,20 +178,22 @@ BlockCheck ==
 (* ---- SEQ_INDEX: lzma_index_hash_decode() ---- *)
 (* records are read one by one; after each: range of Unpadded Size, running sums must not exceed the Blocks' *)
 RECURSIVE RecordsRet(_, _, _)
+IhAppendT(h, r) == [bsum |-> h.bsum + Ceil4(r.u), usum |-> h.usum + r.n, cnt |-> h.cnt + 1,
+                    lsize |-> h.lsize + VliLenT(r.u, r.ub) + VliLenT(r.n, r.nb), recs |-> Append(h.recs, <<r.u, r.n>>)]
 RecordsRet(recs, acc, h) ==
     IF recs = <<>> THEN "OK"
     ELSE LET r == Head(recs)
-             a == IhAppend(acc, r.u, r.n)
+             a == IhAppendT(acc, r)
          IN IF r.u < UnpaddedMin THEN "DATA_ERROR"
             ELSE IF h.bsum < a.bsum \/ h.usum < a.usum \/ h.lsize < a.lsize THEN "DATA_ERROR"
             ELSE RecordsRet(Tail(recs), a, h)
 RECURSIVE IhOfRecs(_, _)
-IhOfRecs(recs, acc) == IF recs = <<>> THEN acc ELSE IhOfRecs(Tail(recs), IhAppend(acc, Head(recs).u, Head(recs).n))
+IhOfRecs(recs, acc) == IF recs = <<>> THEN acc ELSE IhOfRecs(Tail(recs), IhAppendT(acc, Head(recs)))
 IndexRet(T, h) ==
     IF ~T.ivli THEN "DATA_ERROR"                               \* lzma_vli_decode()
     ELSE IF T.icount # h.cnt THEN "DATA_ERROR"                 \* "if (index_hash->remaining != index_hash->blocks.count)"
     ELSE IF RecordsRet(T.irecs, IhInit, h) # "OK" THEN "DATA_ERROR"
-    ELSE IF ~T.ipadz /\ Pad4(IndexBody(T)) > 0 THEN "DATA_ERROR"
+    ELSE IF ~T.ipadz /\ IndexPad(T) > 0 THEN "DATA_ERROR"
     ELSE LET a == IhOfRecs(T.irecs, IhInit) IN
          IF a.bsum # h.bsum \/ a.usum # h.usum \/ a.lsize # h.lsize THEN "DATA_ERROR"     \* "Compare the sizes."
          ELSE IF a.recs # h.recs THEN "DATA_ERROR"             \* "Finish the hashes and compare them."
@@ -245,6 +252,16 @@ Touches == CASE seq = "STREAM_HEADER" -> {"h.magic", "h.flags", "h.crc32"}
              [] OTHER -> {}
 TouchBlock == IF seq \in {"BLOCK_HEADER", "BLOCK_CODE", "BLOCK_PADDING", "BLOCK_CHECK"} /\ ~AtIndex THEN bi + 1 ELSE 0
 
+(* The Index field alone through lzma_index_decoder() / lzma_index_buffer_decode() (index_decoder.c): the same VLI,  *)
+(* Record range, padding and CRC32 rules, but nothing to compare the Records with.  "skip": not predicted (a Number  *)
+(* of Records that disagrees with the list makes the decoder read other fields as Records).                         *)
+IndexAloneRet(T) ==
+    IF ~T.ivli THEN "DATA_ERROR"
+    ELSE IF T.icb # "" \/ T.icount # Len(T.irecs) THEN "skip"
+    ELSE IF \E k \in 1..Len(T.irecs) : T.irecs[k].u < UnpaddedMin THEN "DATA_ERROR"
+    ELSE IF ~T.ipadz /\ IndexPad(T) > 0 THEN "DATA_ERROR"
+    ELSE IF ~T.icrc THEN "DATA_ERROR"
+    ELSE "OK"
 (* other entry points, as functions of the lzma_code() result *)
 (* lzma_stream_buffer_decode(): LZMA_STREAM_END -> LZMA_OK; truncated input -> LZMA_DATA_ERROR; tells are not returned *)
 BufferDecodeRet(r) == CASE r = "STREAM_END" -> "OK" [] r = "BUF_ERROR" -> "DATA_ERROR" [] OTHER -> r
